@@ -185,6 +185,7 @@ func read(in io.Reader, metadata *raft.SnapshotMeta, snap io.Writer) error {
 
 	// Look through the archive for the pieces we care about.
 	var shaBuffer bytes.Buffer
+	seen := make(map[string]bool)
 	for {
 		hdr, err := archive.Next()
 		if err == io.EOF {
@@ -194,6 +195,7 @@ func read(in io.Reader, metadata *raft.SnapshotMeta, snap io.Writer) error {
 			return fmt.Errorf("failed reading snapshot: %v", err)
 		}
 
+		seen[hdr.Name] = true
 		switch hdr.Name {
 		case "meta.json":
 			// Previously we used json.Decode to decode the archive stream. There are
@@ -230,6 +232,14 @@ func read(in io.Reader, metadata *raft.SnapshotMeta, snap io.Writer) error {
 	// Verify all the hashes.
 	if err := hl.DecodeAndVerify(&shaBuffer); err != nil {
 		return fmt.Errorf("failed checking integrity of snapshot: %v", err)
+	}
+
+	// An empty member hashes the same as a missing one, so the hash check
+	// alone can't tell that a member was dropped from the archive.
+	for _, name := range []string{"meta.json", "state.bin"} {
+		if !seen[name] {
+			return fmt.Errorf("failed checking integrity of snapshot: file missing for %q", name)
+		}
 	}
 
 	return nil
